@@ -338,7 +338,7 @@ def draw(base_seed, index, prof=None, salt=''):
     elif has_noise_flag and rnd.random() < 0.5:
         setp('restarts.use_restarts', False)
     if npt_eff > n + 1 and rnd.random() < 0.6 or rnd.random() < P['p_regression'] * 0.3:
-        setp('regression.num_extra_steps', rnd.choice([1, 1, 2, n]))
+        setp('regression.num_extra_steps', rnd.choice([1, 1, 2, n, npt_eff, npt_eff + 2]))      # no documented upper limit: the solver caps it
         feats.append('regression_steps')
         if rnd.random() < P['p_momentum'] and not has_sets:
             setp('regression.momentum_extra_steps', True)
